@@ -198,6 +198,12 @@ func interpCases(c *Ctx, n int, tweak func(cfg *GenCfg, i int), post func(s *Sce
 		case "unboundedThenBounded":
 			prog = g.unboundedThenBoundedProgram()
 			c.count("directed:unboundedThenBounded")
+		case "hugeSum":
+			prog = g.hugeSumProgram()
+			c.count("directed:hugeSum")
+		case "twoAssets":
+			prog = g.twoAssetsProgram()
+			c.count("directed:twoAssets")
 		default:
 			prog = g.Program()
 		}
@@ -309,6 +315,8 @@ func init() {
 			cfg.SmallPool = i%4 == 1
 			cfg.OtherAssetLead = i%7 == 2
 			switch i % 10 {
+			case 1:
+				cfg.Directed = "hugeSum"
 			case 3:
 				cfg.Directed = "keptSpan"
 			case 6:
